@@ -339,7 +339,11 @@ impl MgfReader {
 
         // embedded parameters
         while !default_params.is_query_start {
-            let line = lines.next().unwrap().trim();
+            let line = match lines.next() {
+                Some(line) => line.trim(),
+                // no `BEGIN IONS` line at all: nothing to read
+                None => return Ok(Vec::new()),
+            };
             for parser in &default_parsers {
                 match parser(line, &mut default_params) {
                     Ok(true) => break,
